@@ -10,5 +10,5 @@ cd /verif && VERIF_REPO="$wt" ./check "$id" --tier "$tier" > "/tmp/seedtest-$id-
 grep -E "^VIOLATION|^KNOWN-FINDING" "/tmp/seedtest-$id-$$.out"
 tail -1 "/tmp/seedtest-$id-$$.err"
 [ $rc -eq 0 ] && echo "MISSED $id $patch"
-git -C /repo worktree remove --force "$wt"; rm -rf "/verif/run/$id-"* /verif/run/alt-* "/tmp/seedtest-$id-$$.out" "/tmp/seedtest-$id-$$.err"
+git -C /repo worktree remove --force "$wt"; h=$(printf %s "$wt" | sha1sum | cut -c1-8); rm -rf "/verif/run/$id-$h" "/verif/run/alt-$h" "/tmp/seedtest-$id-$$.out" "/tmp/seedtest-$id-$$.err"
 exit $rc
